@@ -80,7 +80,7 @@ Theorem C07_documents_of_the_class : forall rd st latex,
               (exec py_tables rd (S (mu (macros st) (fst (scan (t_scan py_tables) latex)))))
               st latex = Ok r.
 Proof.
-  exact (fun rd => parser_work_class_total py_tables rd (eq_refl true) (fun c => eq_refl)).
+  exact (fun rd => parser_work_class_total py_tables rd (eq_refl true) (fun c => eq_refl) (conj eq_refl eq_refl)).
 Qed.
 Print Assumptions C07_documents_of_the_class.
 
